@@ -204,6 +204,7 @@ type srvStats struct {
 	// the classes added with the odd strings / derived paths / sizes
 	oddString, emptyString, twins, twinsInList, oddHit bool
 	bigList, repeatInList, bigNotif, longPath, crowd   bool
+	hugeNotif                                          bool
 	oddTarget, twinNotOffered                          bool
 	// container shapes (atomic.go)
 	atoms atomStats
@@ -247,6 +248,7 @@ func (s srvStats) labels() []string {
 	add(s.bigList, "list-with-20plus-paths")
 	add(s.repeatInList, "list-repeats-a-path")
 	add(s.bigNotif, "notification-with-5plus-entries")
+	add(s.hugeNotif, "notification-with-65plus-entries")
 	add(s.longPath, "path-with-6plus-elements")
 	add(s.crowd, "path-registered-by-3plus-clients")
 	add(s.oddTarget, "target-with-joiner")
@@ -558,6 +560,9 @@ func runServerInBubble(sc *SrvScenario, open map[string]bool) (st srvStats, err 
 			entries := op.Notif.entryPaths(refIndex(op.NPrefix, true))
 			if len(entries) >= 5 {
 				st.bigNotif = true
+			}
+			if len(entries) >= bigEntries {
+				st.hugeNotif = true
 			}
 			for _, p := range entries {
 				if anyOdd(p) {
